@@ -106,7 +106,7 @@ for pid in ids:
     earlier = []
     for m in sorted(glob.glob(os.path.join(HERE, 'seeded', pid + '*', 'meta.json'))):
         md = json.load(open(m))
-        if md['breaks_property'] != pid:
+        if not md['breaks_property'].startswith(pid):
             continue
         files = ', '.join(f[2:] if f.startswith('b/') else f for f in md['files_changed'])
         earlier.append(f'   - changed {files}; needed: "{md["needs_to_manifest"]}"')
